@@ -247,3 +247,50 @@ def make_with(cfg, gp):
 
     env = cls(generator_params=dict(num_loc=n, **gp), check_solution=False)
     return env, None
+
+
+def init_case(ctx, case):
+    """Initial solutions of the improvement environments (TSP k-opt, PDP ruin-repair), built by the generators'
+    `_get_initial_solutions` in both documented modes: the successor list must be a permutation forming ONE cycle through all
+    nodes, for PDP with every pickup before its delivery on the walk from the depot; the env's reset must hand out the same."""
+    import rl4co.envs as E
+
+    name, n, B, seed, mode = case["env"], case["n"], case["B"], case["s"], case["init"]
+    sig = dict(env=name, predicate="initial_solution", init=mode)
+    torch.manual_seed(seed)
+    try:
+        if name == "tsp_kopt":
+            env = E.TSPkoptEnv(generator_params=dict(num_loc=n, init_sol_type=mode), k_max=2)
+        else:
+            env = E.PDPRuinRepairEnv(generator_params=dict(num_loc=n, init_sol_type=mode))
+        td = env.reset(batch_size=[B])
+    except Exception as e:
+        ctx.evaluation()
+        ctx.violation(dict(sig, predicate="generator_raises", exc=type(e).__name__), f"reset with init_sol_type={mode} raised {type(e).__name__}: {str(e)[:200]}", None)
+        return
+    ctx.count("c18_batches")
+    rec = td["rec_current"]
+    N = rec.shape[-1]
+    h = (N - 1) // 2
+    for b in range(B):
+        ctx.evaluation()
+        ctx.count("c18_initial_solutions")
+        succ = rec[b].tolist()
+        if sorted(succ) != list(range(N)):
+            ctx.violation(dict(sig, q="not_a_permutation"), f"initial successor list {succ} is not a permutation of the {N} nodes", None)
+            return
+        walk, cur = [], 0
+        for _ in range(N):
+            walk.append(cur)
+            cur = succ[cur]
+        if cur != 0 or len(set(walk)) != N:
+            ctx.violation(dict(sig, q="not_one_cycle"), f"initial successor list {succ} is not a single cycle through all nodes (walk from 0: {walk})", None)
+            return
+        if name != "tsp_kopt":
+            pos = {v: i for i, v in enumerate(walk)}
+            bad = [p for p in range(1, h + 1) if pos[p] > pos[p + h]]
+            if bad:
+                ctx.violation(dict(sig, q="precedence"), f"initial tour {walk} visits the delivery before the pickup for orders {bad}", None)
+                return
+    ctx.nontrivial_case(dict(c=case))
+    ctx.sample(dict(case=case, first_tour=rec[0].tolist()))
